@@ -24,7 +24,7 @@ Pat2 == IF Q THEN {<<"f","f","f","f">>, <<"-","f","s","-">>, <<"f","s","-","f">>
 Pat3 == IF Q THEN {<<"f","f","f","f">>, <<"-","-","f","s">>} ELSE {<<"f","f","f","f">>, <<"-","-","f","s">>, <<"s","-","f","-">>}
 NStepsSet == IF Q THEN {4, 12} ELSE {4, 12, 23}
 Datasets == {"ab", "absent", "twometrics"}
-Specials == IF Q THEN {"none", "nan"} ELSE {"none", "nan", "pinf", "mixinf"}
+Specials == IF Q THEN {"none", "nan", "pinf"} ELSE {"none", "nan", "pinf", "mixinf"}
 
 \* label sets of the (up to 4) series of a dataset
 LSOf(ds) ==
@@ -45,7 +45,11 @@ Grps == << [by |-> TRUE, grp |-> <<>>], [by |-> TRUE, grp |-> <<"a">>], [by |-> 
 Params == << [k |-> "lit", v |-> 1, s |-> ""], [k |-> "lit", v |-> 2, s |-> ""], [k |-> "lit", v |-> 0, s |-> ""],
              [k |-> "lit", v |-> -1, s |-> ""], [k |-> "lit", v |-> 5, s |-> ""], [k |-> "str", v |-> 0, s |-> "NaN"],
              [k |-> "str", v |-> 0, s |-> "1e300"], [k |-> "ser", v |-> 0, s |-> ""], [k |-> "ser", v |-> 0, s |-> ""],
-             [k |-> "str", v |-> 0, s |-> "0.5"], [k |-> "str", v |-> 0, s |-> "Inf"] >>
+             [k |-> "str", v |-> 0, s |-> "0.5"], [k |-> "str", v |-> 0, s |-> "Inf"],
+             \* huge but convertible k (the reference clamps it to the input size); a parameter that is NaN exactly
+             \* where the operand is empty (scalar(sum(operand))): the reference still fails those steps
+             [k |-> "str", v |-> 0, s |-> "1e18"], [k |-> "str", v |-> 0, s |-> "100000000000"], [k |-> "self", v |-> 0, s |-> ""],
+             [k |-> "self", v |-> 0, s |-> ""], [k |-> "lit", v |-> 0, s |-> ""] >>
 
 VARIABLE g
 Init == g \in [ds : Datasets, p1 : Pat1, p2 : Pat2, p3 : Pat3, n : NStepsSet, sp : Specials]
@@ -82,6 +86,7 @@ PlanOf(x) ==
   IF ~NeedsParam(a) THEN <<Sel(SelAll(x)), Agg(a, gp.by, gp.grp, <<1>>)>>
   ELSE IF pr.k = "lit" THEN <<Sel(SelAll(x)), Num(pr.v), Agg(a, gp.by, gp.grp, <<2, 1>>)>>
   ELSE IF pr.k = "str" THEN <<Sel(SelAll(x)), NumS(pr.s), Agg(a, gp.by, gp.grp, <<2, 1>>)>>
+  ELSE IF pr.k = "self" THEN <<Sel(SelAll(x)), Sel(SelAll(x)), Agg("sum", TRUE, <<>>, <<2>>), Fn("scalar", <<3>>), Agg(a, gp.by, gp.grp, <<4, 1>>)>>
   ELSE <<Sel(SelAll(x)), Sel(<<Metric("p")>>), Fn("scalar", <<2>>), Agg(a, gp.by, gp.grp, <<3, 1>>)>>
 
 ScnOf(x) == Scn("agg", "C04", TickMs, Data(x), PlanOf(x), 0, x.n - 1, 1, 1, 0)
